@@ -995,6 +995,12 @@ class IDict:
             raise Unsupported("symbolic dict passed to native code")
         return dict(zip(self.keys, self.vals))
 
+    def __getitem__(self, k):
+        for y, v in zip(self.keys, self.vals):
+            if not deep_sym(y) and not deep_sym(k) and y == k:
+                return v
+        raise KeyError(k)
+
     def __repr__(self):
         return "IDict(%r)" % (list(zip(self.keys, self.vals)),)
 
